@@ -108,7 +108,33 @@ def generate():
         raise AnchorError('ANCHOR NOT FOUND: JsonFormatter::format: toJson(m_compact ? Compact : Indented)')
     need(re.search(r'JsonFormatter::JsonFormatter\(bool compact\)\s*:\s*m_compact\(compact\)', j), 'JsonFormatter constructor stores the flag')
 
-    out = HDR % 'src/qtlogger/logmessage.h, src/qtlogger/formatters/jsonformatter.cpp'
+    # front ends (round 8): how formatToJson(flag) and JsonFormatter::instance() obtain the formatter object
+    sp = strip_comments(rd('simplepipeline.cpp'))
+    fj = re.sub(r'\s+', ' ', fn_body(sp, 'SimplePipeline::formatToJson'))
+    need(re.search(r'SimplePipeline &SimplePipeline::formatToJson\(bool compact\)', sp), 'SimplePipeline::formatToJson(bool compact)')
+    if re.fullmatch(r'append\(JsonFormatterPtr::create\(compact\)\); return \*this;', fj.strip()):
+        fluent = 'FFresh'
+    elif re.fullmatch(r'append\(JsonFormatterPtr::create\(\)\); return \*this;', fj.strip()):
+        fluent = 'FFreshNoFlag'
+    elif re.fullmatch(r'append\(JsonFormatter::instance\((?:compact)?\)\); return \*this;', fj.strip()):
+        fluent = 'FShared'
+    else:
+        raise AnchorError('ANCHOR NOT FOUND: SimplePipeline::formatToJson: append(JsonFormatterPtr::create(compact)); return *this;  (got %r)' % fj.strip()[:200])
+    jh = re.sub(r'\s+', ' ', strip_comments(rd('formatters/jsonformatter.h')))
+    cd = need(re.search(r'explicit JsonFormatter\(bool compact = (true|false)\);', jh), 'JsonFormatter(bool compact = false) declaration').group(1)
+    im = need(re.search(r'static JsonFormatterPtr instance\(([^)]*)\) \{ static const auto (\w+) = JsonFormatterPtr::create\(([^)]*)\); return \2; \}', jh),
+              'JsonFormatter::instance(): function-local static created with JsonFormatterPtr::create()')
+    iparams, iarg = im.group(1).strip(), im.group(3).strip()
+    if iparams == '' and iarg == '':
+        inst = 'None'
+    elif iparams == '' and iarg in ('true', 'false'):
+        inst = 'Some %s' % iarg
+    else:
+        raise AnchorError('ANCHOR NOT FOUND: JsonFormatter::instance() takes no argument and creates the default formatter (got parameters %r, argument %r)' % (iparams, iarg))
+    sh = re.sub(r'\s+', ' ', strip_comments(rd('simplepipeline.h')))
+    need(re.search(r'SimplePipeline &formatToJson\(bool compact = false\);', sh), 'SimplePipeline::formatToJson(bool compact = false) declaration')
+
+    out = HDR % 'src/qtlogger/logmessage.h, src/qtlogger/formatters/jsonformatter.cpp, formatters/jsonformatter.h, simplepipeline.cpp'
     out += 'Require Import List NArith.\nImport ListNotations.\nRequire Import QtlVerif.JsonDefs.\nLocal Open Scope N_scope.\n'
     out += 'Definition src_json_cfg : json_cfg := {|\n'
     out += '  type_names := [%s];\n' % names
@@ -116,4 +142,5 @@ def generate():
     out += '  builtins := [%s];\n' % ';\n               '.join(blt)
     out += '  custom_overlay := %s;\n' % ('true' if overlay else 'false')
     out += '  flag_true_is_compact := %s |}.\n' % flag
+    out += 'Definition src_json_front : json_front := {| fluent_obj := %s; ctor_default_compact := %s; instance_arg := %s |}.\n' % (fluent, cd, inst)
     return {'SrcJson.v': out}
